@@ -3,11 +3,11 @@
 Require Import ExtrOcamlBasic.
 From Coq Require Import QArith.
 From Coq Require Import Qcanon.
-From SharkV Require Import C03Model C15Model C15PcaModel C02Model C02Q C02PstrfModel C02SemiModel C15SolveModel.
+From SharkV Require Import C03Model C15Model C15PcaModel C15ZcaModel C02Model C02Q C02PstrfModel C02SemiModel C15SolveModel.
 Extraction "c15_model.ml" chunk Qred Qeq_bool Qle_bool Qplus Qmult Qminus Qopp Qdiv
   mean var cov fmin fmax uv_params ui_params affine feat
   lr_grad lr_residual lin center_off gram eig_residual
   lda_prior lda_mean lda_cov lda_count lda_mean_u lda_cov_u lda_residual lda_bias_part
   pca_setdata pca_mean pca_m pca_encoder pca_decoder pca_wh_met
   qc_ops qc_make qc_num qc_den qc_abs Q2Qc lrc_train lrc_halfgrad lrc_A lrc_T ldac_train ldaw_train ldaw_met semi_decompose
-  ldac_mean ldac_cov ldac_num ldaw_mean ldaw_cov ldaw_cw ldaw_wsum fofnat.
+  ldac_mean ldac_cov ldac_num ldaw_mean ldaw_cov ldaw_cw ldaw_wsum fofnat zca_train.
